@@ -70,11 +70,14 @@ static void c01_case(uint64_t idx)
     memset(key, 0, sizeof(key)); memset(in, 0, sizeof(in));
     if (k < C01_STRUCT) {
         /* every value in every cell, under a zero key (k<4096) or a random key */
-        unsigned cell = (unsigned)(k % 16), val = (unsigned)((k / 16) % 256);
+        /* the structured block is walked in a scrambled order (odd multiplier modulo 2^13 = bijection) so that short runs
+           mix zero-key and random-key cases instead of seeing only the zero key */
+        uint64_t ks = (k * 2731u) & (C01_STRUCT - 1);
+        unsigned cell = (unsigned)(ks % 16), val = (unsigned)((ks / 16) % 256);
         kind = "cell-value";
-        if (k >= 4096) vh_rand_bytes(&r, key, klen);
+        if (ks >= 4096) vh_rand_bytes(&r, key, klen);
         vh_rand_bytes(&r, in, bb);
-        if (k & 1) memset(in, 0, bb);
+        if (ks & 1) memset(in, 0, bb);
         if (bb == 16) in[cell] = (uint8_t)val;
         else { val &= 15; in[cell / 2] = (uint8_t)((cell & 1) ? ((in[cell / 2] & 0xF0) | val) : ((in[cell / 2] & 0x0F) | (val << 4))); }
     } else if (k < C01_STRUCT + 384) {
